@@ -86,19 +86,24 @@ func (r *validationResponseHandler) HandleValidationResponse(
 		return ctx.Stored.Data, nil
 	}
 
-	var (
-		ccResp     CCResponseDirectives
-		ccRespOnce bool
-	)
 	if (err != nil || isStaleErrorAllowed(resp.StatusCode)) && req.Method == http.MethodGet {
-		ccResp = ParseCCResponseDirectives(resp.Header)
-		ccRespOnce = true
-		if r.siep.CanStaleOnError(ctx.Freshness, ccResp) {
+		// RFC 5861 §4: stale-if-error is taken from the stored response or the
+		// request (not from the error reply, which may not even exist), and it
+		// never overrides must-revalidate or no-cache (RFC 9111 §4.2.4).
+		ccStored := ParseCCResponseDirectives(ctx.Stored.Data.Header)
+		noCacheFields, hasNoCache := ccStored.NoCache()
+		if !ccStored.MustRevalidate() && !(hasNoCache && noCacheFields == "") &&
+			r.siep.CanStaleOnError(ctx.Freshness, ccStored, ctx.CCReq) {
 			// RFC 9111 §4.2.4 Serving Stale Responses
 			// RFC 9111 §4.3.3 Handling Validation Responses (5xx errors)
+			if fields, qualified := noCacheFields.Value(); qualified {
+				for field := range fields {
+					ctx.Stored.Data.Header.Del(field)
+				}
+			}
 			SetAgeHeader(ctx.Stored.Data, r.clock, ctx.Freshness.Age)
 			CacheStatusStale.ApplyTo(ctx.Stored.Data.Header)
-			r.l.LogCacheStaleIfError(req, ctx.URLKey, ctx.ToMisc(ccResp))
+			r.l.LogCacheStaleIfError(req, ctx.URLKey, ctx.ToMisc(ccStored))
 			return ctx.Stored.Data, nil
 		}
 	}
@@ -107,9 +112,7 @@ func (r *validationResponseHandler) HandleValidationResponse(
 		return nil, err
 	}
 
-	if !ccRespOnce {
-		ccResp = ParseCCResponseDirectives(resp.Header)
-	}
+	ccResp := ParseCCResponseDirectives(resp.Header)
 	switch {
 	case r.ce.CanStoreResponse(resp, ctx.CCReq, ccResp):
 		// RFC 9111 §4.3.3 Handling Validation Responses (full response)
